@@ -314,6 +314,10 @@ type modelDef struct {
 	genTable    func(c Chooser, maxDim, n int) []float64
 }
 
+// WholeSpecRange lets a model's parameters leave the hand-written stable regime and use the whole
+// range its OW-SPEC block declares (set by the split engine of C06 only).
+var WholeSpecRange bool
+
 func decl(name string) pgen       { return pgen{name, nil} }
 func par(name string, g pfn) pgen { return pgen{name, g} }
 func in(name string, g ifn) igen  { return igen{name, g} }
@@ -515,6 +519,14 @@ func init() {
 		fix: func(c Chooser, p []float64) {
 			// 2*K*X <= DeltaT <= 2*K*(1-X), 0 < K <= 200000
 			x, dt := p[1], p[2]
+			if WholeSpecRange && c.Choose(4) == 0 {
+				// anywhere in the spec's own range [0,200000]: outside the inequality above a
+				// coefficient is negative and the scheme undershoots on a steep limb - still a linear
+				// recursion, and a hot start must reproduce it (only engines whose oracle compares a
+				// run with itself ask for this; downstream models need not tolerate negative flows)
+				p[0] = Float(c, dt/20, 200000)
+				return
+			}
 			lo := dt / (2 * (1 - x))
 			hi := 200000.0
 			if x > 0 && dt/(2*x) < hi {
